@@ -3,7 +3,8 @@ CONSTANTS
   Kinds = {"plain"}
   MaxAddrs = 60
   RecBudget = 300
-  StaleLenByte = FALSE
+  HdrBudget = 100
+  QuoteBug = FALSE
   Truncate = FALSE
 INIT Init
 NEXT Next
